@@ -78,6 +78,70 @@ def enumerate_history(args):
         shutil.rmtree(hwd, ignore_errors=True)
 
 
+def rollover_history(args):
+    """fill a log file (2027 index entries) so that the store rolls over to the next file; crash images are taken densely
+    around every catalogue rewrite / file creation / set_len of the second half of the journal"""
+    wd, seed, which = args
+    rnd = random.Random(seed)
+    hwd = os.path.join(wd, "ro%d" % seed)
+    os.makedirs(hwd, exist_ok=True)
+    res = {"seed": seed, "profile": "rollover", "images": 0, "distinct_images": 0, "mutations": 0, "violations": [], "windows": {}, "features": ["rollover"]}
+    try:
+        ops = [{"op": "save_hard_state", "term": 1, "voted_for": 1}, {"op": "save_member", "members": [1], "addrs": {"1": "127.0.0.1:9848"}}]
+        idx = 0
+        bsz = rnd.choice([100, 128, 300])
+        while idx < 259456 + 400:
+            ops.append({"op": "batch", "entries": [[idx + j + 1, 1, 0, crashrig.BLANK] for j in range(bsz)]})
+            idx += bsz
+        ops.append({"op": "save_hard_state", "term": 2, "voted_for": 1})
+        ops.append({"op": "append", "index": idx + 1, "term": 2, "uid": 77, "len": 40})
+        try:
+            recs, table = crashrig.run_journaled(hwd, ops)
+        except crashrig.SessionDied as e:
+            res["inconclusive"] = "live session died: %s" % e
+            return res
+        kinds = crashrig.windows(recs)
+        res["mutations"] = sum(1 for r in recs if r[0] != "M")
+        hot = [k for k, kd in enumerate(kinds) if k > 200 and (kd.startswith(("create:", "unlink:", "set-len", "index-record")))]
+        focus = set()
+        for k in hot:
+            focus.update(range(max(0, k - 25), min(len(recs), k + 26)))
+        focus.update(range(max(0, len(recs) - 30), len(recs)))
+        res["focus_windows"] = len(hot)
+        img = crashrig.Image()
+        markers = []
+        cache = {}
+        idir = os.path.join(hwd, "img")
+        seen = set()
+        last_mut_kind = "start"
+        for k, rec in enumerate(recs):
+            if rec[0] == "M":
+                markers.append(rec[1])
+            else:
+                img.apply(rec)
+                last_mut_kind = kinds[k]
+            if k not in focus:
+                continue
+            dg = img.digest()
+            if dg not in cache:
+                img.materialise(idir)
+                cache[dg] = crashrig.recover(idir, tail=900)
+                res["distinct_images"] += 1
+            r = cache[dg]
+            res["images"] += 1
+            res["windows"]["rollover:" + last_mut_kind] = res["windows"].get("rollover:" + last_mut_kind, 0) + 1
+            found = [("C04",) + x for x in crashrig.check_image(table, markers, r)] + [("C04",) + x for x in crashrig.check_applied(table, markers, r)] + [("C05",) + x for x in crashrig.check_meta(table, markers, r)]
+            for prop, clause, detail in found:
+                sig = "%s/rollover/after:%s" % (clause, last_mut_kind)
+                if (prop, sig) in seen:
+                    continue
+                seen.add((prop, sig))
+                res["violations"].append({"property": prop, "signature": sig, "witness": {"history_seed": seed, "profile": "rollover", "journal_prefix": k + 1, "of": len(recs), "clause": clause, "detail": detail, "markers_tail": markers[-4:]}})
+        return res
+    finally:
+        shutil.rmtree(hwd, ignore_errors=True)
+
+
 def drive(pid, tier, seed, which, profile_mix, rule):
     common.build()
     crashrig.build_shim()
@@ -90,8 +154,10 @@ def drive(pid, tier, seed, which, profile_mix, rule):
         for i in range(n_hist):
             profile = profile_mix[i % len(profile_mix)]
             jobs.append((wd, seed * 100000 + i + (5000 if pid == "C05" else 0), [10, 18, 30][i % 3], profile, 1, which))
+        n_roll = (0 if tier == "quick" else 6) if pid == "C04" else 0   # a roll-over history costs ~2 min: thorough only
         with ThreadPoolExecutor(max_workers=common.NCPU) as ex:
-            results = list(ex.map(enumerate_history, jobs))
+            rf = [ex.submit(rollover_history, (wd, seed * 100000 + 70000 + i, which)) for i in range(n_roll)]
+            results = list(ex.map(enumerate_history, jobs)) + [f.result() for f in rf]
         agg = {"crash_images_evaluated": 0, "distinct_directory_images_recovered": 0, "file_mutations_journaled": 0, "window_histogram": {}}
         for r in results:
             if "inconclusive" in r:
@@ -130,7 +196,7 @@ def run(tier, seed):
             "process running the real recovery code; oracle: recovery succeeds, log contiguous, only submitted entries, every acknowledged entry "
             "present (unless behind an acknowledged cut / below a pointer), last-applied <= max(log end, snapshot end). non-trivial image = image "
             "after a file mutation or marker; distinct = (kind of the last mutation before the cut, history feature set)")
-    return drive("C04", tier, seed, "C04", ["mixed", "mixed", "meta"], rule)
+    return drive("C04", tier, seed, "C04", ["mixed", "snap", "meta"], rule)
 
 
 def replay(path):
